@@ -48,27 +48,58 @@ func runC07(c *Ctx) {
 	// --- keygen
 	if f := c.fn("pkg/ed25519", "NewKeyFromSeed"); f != nil {
 		b := ana.NewBuilder(c.P, f.Function)
-		helper, hb := followOutBuf(c, "C07.keygen-flow", f.Function, b, "obj(alloc<[64]byte>, call<*>(slice(self, 0, 64), p0))", "slice($O, 0, alt(none, 64))")
+		// the key routine: the out-parameter helper NewKeyFromSeed fills its fresh buffer with, or NewKeyFromSeed itself when
+		// it fills the buffer in place. base = the buffer, view = how its 64 bytes are addressed, seed = the seed parameter
+		helper, hb, base, view, seed, seedIdx := (*ssa.Function)(nil), (*ana.Builder)(nil), "p0", "self", "p1", 1
+		inline := false
+		for _, e := range ana.Exits(f.Function) {
+			if e.Panic {
+				continue
+			}
+			if bd, ok := ana.Match("slice($O, 0, alt(none, 64))", b.Of(e.Results[0], e.Instr)); ok {
+				o := bd["$O"]
+				if o.Op == "obj" && o.Args[0].String() == "alloc<[64]byte>" {
+					inline = true
+					for _, ev := range o.Args[1:] {
+						if !ev.Is("call", "builtin.copy") {
+							inline = false
+						}
+					}
+				}
+			}
+		}
+		if inline {
+			helper, hb, base, view, seed, seedIdx = f.Function, b, "alloc<[64]byte>", "slice(self, 0, 64)", "p0", 0
+			r.OK("C07.keygen-flow.wrapper", c.P.Pos(f.Function.Pos()), "NewKeyFromSeed fills its fresh 64-byte buffer in place")
+		} else {
+			helper, hb = followOutBuf(c, "C07.keygen-flow", f.Function, b, "obj(alloc<[64]byte>, call<*>(slice(self, 0, 64), p0))", "slice($O, 0, alt(none, 64))")
+		}
 		if helper != nil {
 			c.R.Fn(ana.ShortFunc(helper))
 			// exits of helper: panics only under len(seed)!=32 or clamping error; single return
-			checkPanicsClosed(c, "C07.keygen-flow.panic-closed", helper, hb, "bin<!=>(len(p1), 32)", "bin<!=>(ext#1("+strings.Replace(patClamped, "$seed", "p1", 1)+"), nil)")
+			checkPanicsClosed(c, "C07.keygen-flow.panic-closed", helper, hb, "bin<!=>(len("+seed+"), 32)", "bin<!=>(ext#1("+strings.Replace(patClamped, "$seed", seed, 1)+"), nil)")
 			for _, e := range ana.Exits(helper) {
 				if e.Panic {
 					continue
 				}
-				st := expandAll(c, hb.Of(helper.Params[0], e.Instr))
+				var st *ana.Term
+				if inline {
+					bd, _ := ana.Match("slice($O, 0, alt(none, 64))", hb.Of(e.Results[0], e.Instr))
+					st = expandAll(c, bd["$O"])
+				} else {
+					st = expandAll(c, hb.Of(helper.Params[0], e.Instr))
+				}
 				// the two copies write disjoint halves (len(seed) == 32 is guarded), so their order is immaterial
-				seedCopy := "call<builtin.copy>(alt(self, slice(self, 0, 32)), p1)"
-				pubCopy := "call<builtin.copy>(slice(self, 32, none), call<(*ed.Point).Bytes>(obj(_, call<(*ed.Point).ScalarBaseMult>(self, " + patClamped + "))))"
-				bd, ok := ana.Match("alt(obj(p0, "+seedCopy+", "+pubCopy+"), obj(p0, "+pubCopy+", "+seedCopy+"))", st)
+				seedCopy := "call<builtin.copy>(alt(" + view + ", slice(" + view + ", 0, 32)), " + seed + ")"
+				pubCopy := "call<builtin.copy>(slice(" + view + ", 32, none), call<(*ed.Point).Bytes>(obj(_, call<(*ed.Point).ScalarBaseMult>(self, " + patClamped + "))))"
+				bd, ok := ana.Match("alt(obj("+base+", "+seedCopy+", "+pubCopy+"), obj("+base+", "+pubCopy+", "+seedCopy+"))", st)
 				if !ok {
 					r.Viol("C07.keygen-flow.buffer", pos(e.Instr), "private key buffer at return is not seed ‖ [clamp(SHA512(seed)[:32])]B: %s", short(st.String(), 500))
 					continue
 				}
-				r.Check(bd["$seed"].IsParam(1), "C07.keygen-flow.buffer", pos(e.Instr), "private key = seed ‖ A.Bytes(), A=[clamp(SHA512(seed)[0:32])]B; hashed seed is the whole parameter: %s", bd["$seed"])
+				r.Check(bd["$seed"].IsParam(seedIdx), "C07.keygen-flow.buffer", pos(e.Instr), "private key = seed ‖ A.Bytes(), A=[clamp(SHA512(seed)[0:32])]B; hashed seed is the whole parameter: %s", bd["$seed"])
 			}
-			es := edgesMatching(hb, "bin<==>(len(p1), 32)")
+			es := edgesMatching(hb, "bin<==>(len("+seed+"), 32)")
 			r.Check(len(es) > 0, "C07.keygen-flow.len-guard", c.P.Pos(helper.Pos()), "length test len(seed)==32 present")
 		}
 	}
